@@ -370,6 +370,39 @@ func checkVectorEnv(shape int, argv []string, env map[string]string) (msg string
 			return fmt.Sprintf("Parse(%q): field of flag -%s = %#v, want %#v (%s text %q)", argv, d.name, g, want, from, text), "ok", m.nflags
 		}
 	}
+	helpToken := false
+	for _, a := range argv {
+		if h := strings.TrimLeft(a, "-"); h == "help" || strings.HasPrefix(h, "help=") {
+			helpToken = true // wherever it stands: this harness must not be the one that makes the test process print and exit
+		}
+	}
+	if !helpToken {
+		// the same vector as a program meets it: os.Args, through FromCommandLine (which hands back Args()); without
+		// -help, which makes that entry point print the usage and exit
+		ptr2 := reflect.New(reflect.TypeOf(ptr).Elem()).Interface()
+		old := os.Args
+		os.Args = append([]string{"prog"}, argv...)
+		rest, err := config.FromCommandLine(ptr2)
+		os.Args = old
+		if err != nil {
+			return fmt.Sprintf("FromCommandLine() with os.Args[1:]=%q returned %v; Parse of the same vector returned nil", argv, err), "ok", m.nflags
+		}
+		if strings.Join(rest, "\x00") != strings.Join(m.rest, "\x00") || len(rest) != len(m.rest) {
+			return fmt.Sprintf("FromCommandLine() with os.Args[1:]=%q returned the arguments %q, want %q", argv, rest, m.rest), "ok", m.nflags
+		}
+		ev.Label("vector_also_through_FromCommandLine")
+		for _, a := range argv {
+			if a == "" {
+				ev.Label("vector_with_an_empty_token_through_FromCommandLine")
+				break
+			}
+		}
+		for _, d := range defs {
+			if g, g2 := d.get(ptr), d.get(ptr2); !sameValue(g, g2) {
+				return fmt.Sprintf("FromCommandLine() with os.Args[1:]=%q: field of flag -%s = %#v, Parse of the same vector gives %#v", argv, d.name, g2, g), "ok", m.nflags
+			}
+		}
+	}
 	return "", "ok", m.nflags
 }
 
